@@ -841,6 +841,48 @@ func StuckIn(logPath string) string {
 	return strings.Join(out, "+")
 }
 
+var longWaitRe = regexp.MustCompile(`^(\d+) gp=\S+ m=\S+ \[(sync\.(?:RW)?Mutex\.R?Lock|semacquire), (\d+) minutes[^\]]*\]:|^(\d+) \[(sync\.(?:RW)?Mutex\.R?Lock|semacquire), (\d+) minutes[^\]]*\]:`)
+
+// MutexParked reads a goroutine dump and returns the innermost hydraide functions of goroutines that
+// the Go runtime itself reports as waiting for a mutex for at least minMinutes minutes. A mutex wait
+// is not a durable block for testing/synctest, so a bubble whose engine dead-locks on a mutex never
+// reaches quiescence; the watchdog's dump then shows these goroutines.
+func MutexParked(logPath string, minMinutes int) []string {
+	b, err := os.ReadFile(logPath)
+	if err != nil {
+		return nil
+	}
+	seen := map[string]bool{}
+	for _, g := range strings.Split(string(b), "\n\ngoroutine ") {
+		lines := strings.Split(g, "\n")
+		m := longWaitRe.FindStringSubmatch(lines[0])
+		if m == nil {
+			continue
+		}
+		mins := m[3]
+		if mins == "" {
+			mins = m[6]
+		}
+		n, _ := strconv.Atoi(mins)
+		if n < minMinutes {
+			continue
+		}
+		for _, ln := range lines[1:] {
+			ln = strings.TrimSpace(ln)
+			if strings.HasPrefix(ln, "github.com/hydraide/hydraide/app/") {
+				seen[shortFunc(ln[:strings.LastIndex(ln, "(")])] = true
+				break
+			}
+		}
+	}
+	var out []string
+	for k := range seen {
+		out = append(out, k)
+	}
+	sort.Strings(out)
+	return out
+}
+
 // ReadJSON reads a JSON file into v (panics on error; used for replays).
 func ReadJSON(path string, v any) {
 	b, err := os.ReadFile(path)
